@@ -26,6 +26,8 @@ type C16Conn struct {
 	HookFail bool   `json:"hook_fail,omitempty"`
 	// HookFailCtx: the failing connect hook hands back a (derived) context together with its error
 	HookFailCtx bool `json:"hook_fail_ctx,omitempty"`
+	// IdleMs: after connecting the client stays silent this long before it does anything (old connections)
+	IdleMs int `json:"idle_ms,omitempty"`
 }
 
 type C16Sc struct {
@@ -56,11 +58,14 @@ func genC16(g *simrt.Tape, tier string) any {
 		c := C16Conn{Phase: c16Phases[g.Draw(len(c16Phases))], Tok: c16Toks[g.Draw(len(c16Toks))]}
 		c.DelayMs = []int{0, 0, 0, 1, 50, 500, 2000}[g.Draw(7)]
 		c.Yields = g.Draw(6)
+		if g.Draw(5) == 0 {
+			c.IdleMs = []int{1000, 9500, 12000, 31000, 61000}[g.Draw(5)]
+		}
 		c.HookFail = g.Draw(8) == 0
 		c.HookFailCtx = c.HookFail && g.Draw(2) == 0
 		sc.Conns = append(sc.Conns, c)
 	}
-	sc.ShutdownMs = []int{0, 0, 1, 50, 100, 500, 1000, 2000, 6000}[g.Draw(9)]
+	sc.ShutdownMs = []int{0, 0, 1, 50, 100, 500, 1000, 2000, 6000, 10000, 13000, 32000, 62000}[g.Draw(13)]
 	sc.ShutdownYields = g.Draw(12)
 	sc.Second = g.Draw(5) == 0
 	sc.NoHooks = g.Draw(6) == 0
@@ -179,6 +184,9 @@ func execC16(x *X, scAny any) {
 			}
 			cl.conn = conn
 			cl.connected = true
+			if cs.IdleMs > 0 {
+				s.Sleep(time.Duration(cs.IdleMs) * time.Millisecond)
+			}
 			st := ttlv.NewStream(conn, 0)
 			mk := func(n int) []byte {
 				return ttlv.MarshalTTLV(buildRequest(&ReqSc{Version: 4, Items: []ItemSc{{Tok: cs.Tok}}}, fmt.Sprintf("k%d.r%d", i, n)))
@@ -439,6 +447,12 @@ func execC16(x *X, scAny any) {
 
 func c16Floor(tier string) []*C16Sc {
 	var out []*C16Sc
+	// an old connection (idle for 9.5 s .. 61 s) with a request in flight when Shutdown begins
+	for _, idle := range []int{9500, 12000, 31000, 61000} {
+		for _, tok := range []string{"sL2000,ok", "sl2500,ok", "ok"} {
+			out = append(out, &C16Sc{Conns: []C16Conn{{Phase: "request", Tok: tok, IdleMs: idle}, {Phase: "idle", Tok: "ok"}}, ShutdownMs: idle + 500})
+		}
+	}
 	for _, ph := range []string{"idle", "half", "request", "no-read", "no-read-2", "pipeline", "gone", "two"} {
 		for _, tok := range []string{"ok", "sl1000,ok", "sL1000,ok", "sl10000,cx,ok", "sL5000,ok"} {
 			for _, ms := range []int{0, 500, 2000} {
